@@ -1,7 +1,7 @@
 /-
   C06 — the sidecar index always matches the data file.
 -/
-import BS.Proofs.Extract
+import BS.Proofs.LastMeta
 
 namespace BS.Props.C06
 open BS BS.Impl
@@ -24,6 +24,16 @@ for every chunk size, see `chunk_size_irrelevant`). -/
 theorem rebuild_equals_incremental (p : Nat) (xs : List Entry) (hv : Valid p xs) :
     extractEntries p (Spec.encode p xs) = toIEntries (Spec.sections p xs) :=
   extractEntries_canonical p xs hv
+
+/-- **No prior state of the index file influences the result of an open**: whatever legitimate
+state it is in, the index half of `Data::open_existing` ends with the exact entries and the
+exact index file of the data. -/
+theorem prior_index_state_irrelevant (p off : Nat) (xs : List Entry) (hvx : Valid p xs) (k : Nat)
+    (hsize : (Spec.encode p xs).length < 2^64) (st : Store) (hix : IndexState p xs st.index) :
+    ∃ part', indexOpen st p off (Spec.encode p (xs.take k)) (lastSecTs p (xs.take k)) =
+      ({ st with index := some (ihdr ++ Spec.encIndex (Spec.sections p (xs.take k))), part := part' },
+       .ok (openedData p off (xs.take k))) :=
+  indexOpen_correct p off xs hvx k hsize st hix
 
 /-- the buffered section scan equals the single pass for every chunk size ≥ 1 and every content -/
 theorem chunk_size_irrelevant (p k : Nat) (hk : 0 < k) (lines : List Bytes) :
